@@ -17,6 +17,7 @@
 #include "aln_struct.h"
 #include "aln_seqseq.c"
 #include "stubs_msg.h"
+#include "meetup_spec.h"
 
 #ifndef KV_ROWS
 #define KV_ROWS 2
@@ -179,10 +180,35 @@ void h_c07_bwd_mirror(void)
         }
         KV_REACH();
 }
+void h_c07_meetup(void)
+{
+        struct aln_mem m;
+        struct states f[KV_LB + 2], b[KV_LB + 2];
+        int old_cor[5];
+        int meet = -7, t = -7, j;
+        float score = 0.0f;
+        struct kv_meet r;
+        kv_setup_params();
+        for(j = 0; j < KV_LB + 2; j++){
+                f[j].a = kv_state_value(); f[j].ga = kv_state_value(); f[j].gb = kv_state_value();
+                b[j].a = kv_state_value(); b[j].ga = kv_state_value(); b[j].gb = kv_state_value();
+        }
+        m.f = f; m.b = b; m.seq1 = kv_a; m.seq2 = kv_b; m.prof1 = NULL; m.prof2 = NULL; m.ap = &kv_ap;
+        m.starta = 0; m.enda = 1; m.starta_2 = 1; m.enda_2 = KV_ROWS; m.startb = KV_SB; m.endb = KV_EB;
+        m.len_a = KV_ROWS; m.len_b = KV_LB; m.path = NULL; m.tmp_path = NULL; m.sip = 1; m.mode = ALN_MODE_FULL;
+        old_cor[0] = 0; old_cor[1] = KV_ROWS; old_cor[2] = KV_SB; old_cor[3] = KV_EB; old_cor[4] = 1;
+        r = spec_meetup(f, b, KV_SB, KV_EB, KV_SB == 0, KV_EB == KV_LB, kv_ap.gpo, kv_ap.gpo, kv_ap.gpe, kv_ap.tgpe);
+        aln_seqseq_meetup(&m, old_cor, &meet, &t, &score);
+        KV_CHECK(meet == r.c && t == r.t, "meetup returns the first best (column, transition) of the meet-in-the-middle rule");
+        KV_CHECK(FBITS(score) == FBITS(r.score), "meetup returns the score of that candidate");
+        KV_REACH();
+}
 #ifdef KV_NATIVE
 int main(void)
 {
-#ifdef KV_ENTRY_MIRROR
+#if defined(KV_ENTRY_MEETUP)
+        h_c07_meetup();
+#elif defined(KV_ENTRY_MIRROR)
         h_c07_bwd_mirror();
 #else
         h_c07_fwd_ref();
